@@ -14,10 +14,23 @@ _j = z3.Int("j!q")
 _k = z3.Int("k!q")
 
 
+def _has_ite(t):
+    todo, seen = [t], set()
+    while todo:
+        x = todo.pop()
+        if x.get_id() in seen:
+            continue
+        seen.add(x.get_id())
+        if z3.is_app_of(x, z3.Z3_OP_ITE):
+            return True
+        todo.extend(x.children())
+    return False
+
+
 def forall_range(lo, hi, body, var=None, pattern=None):
     """forall j. lo <= j < hi -> body(j); `pattern(j)` optionally fixes the instantiation trigger."""
     j = var if var is not None else z3.Int("j!q")
-    if pattern is not None:
+    if pattern is not None and not _has_ite(pattern(j)):
         try:
             return z3.ForAll([j], z3.Implies(z3.And(lo <= j, j < hi), body(j)), patterns=[pattern(j)])
         except z3.Z3Exception:
@@ -69,6 +82,12 @@ def mk_path(st, name, minlen=0):
     # every frame is an existing System object
     st.assume(forall_range(0, seq.length, lambda j: z3.And(z3.Select(seq.comps[0], j) >= 0, z3.Select(seq.comps[0], j) < st.alloc)))
     return p
+
+
+def wf_path(st, p):
+    """Representation invariant of a Path object in state st: it exists and every frame is an existing System object."""
+    return z3.And(p.term >= 0, p.term < st.alloc,
+                  forall_range(0, pplen(st, p), lambda j: z3.And(ppat(st, p, j) >= 0, ppat(st, p, j) < st.alloc), pattern=lambda j: ppat(st, p, j)))
 
 
 def mk_system(st, name):
